@@ -408,3 +408,55 @@ def c07_one(ts, tsname, item, x):
             fails.append({"what": f"a column of the {want} family (pool {item['pool']}, dtype {item['dtype']}, nulls {item['nulls']}/{item['null']}) is inferred {t}",
                           "class": f"family:{want}:{item['pool']}:{item['dtype']}->{t}", "typeset": tsname, "backend": "pandas", "family": want, "pool": item["pool"], "enc_dtype": item["dtype"]})
     return fails
+
+
+# ------------------------------------------------------------------ C07 on numpy arrays / Python lists: value preservation
+C07_SEQ_CORNERS = (
+    ["np.array(%s, dtype=np.%s)" % (vals, dt) for dt in ("float16", "float32", "float64")
+     for vals in ("[1.0, 2.0]", "[40000.0, 1.0]", "[-40000.0, nan]", "[65504.0]", "[3e9, 1.0]", "[-3e9, nan, 5.0]", "[16777216.0, -16777216.0]", "[2.0 ** 40]",
+                  "[9007199254740992.0, 1.0]", "[1e19, 1.0]", "[-1e19]", "[2.0 ** 63]", "[-2.0 ** 63, 0.0]", "[1e300, 1.0]", "[1.5, 2.0]", "[0.0, -0.0]")]
+    + ["np.array(%s, dtype=np.%s)" % (vals, dt) for dt in ("complex64", "complex128") for vals in ("[1+0j, 2+0j]", "[3e9+0j]", "[1.5+0j, nan]", "[1e19+0j]")]
+    + ["[1.0, 2.0]", "[3e9, 1.0]", "[1e19, 1.0]", "[1e300]", "[2.0 ** 63, -2.0 ** 63]", "[(1+0j), (3e9+0j)]", "[40000.0, -0.0]"])
+
+
+def c07_seq_values(ts, tsname, x, backend):
+    """numeric numpy arrays / Python lists: whatever numeric type the column is inferred as, the cast values equal the
+    original values (missing values may be dropped by the numpy Integer transformer, which is documented)"""
+    import cmath
+    fails = []
+    try:
+        t = ts.infer_type(x)
+        c = ts.cast_to_inferred(x)
+    except Exception:  # noqa  (totality is C09's business)
+        return fails
+    if t.__name__ not in ("Integer", "Float", "Complex"):
+        return fails
+
+    def item(v):
+        return v.item() if hasattr(v, "item") else v
+
+    def isnan(v):
+        return isinstance(v, (float, complex)) and cmath.isnan(v)
+    orig = [item(v) for v in x]
+    cast = [item(v) for v in c]
+    if not all(isinstance(v, (int, float, complex)) and not isinstance(v, bool) for v in orig + cast):
+        return fails
+    if len(cast) != len(orig):
+        orig = [v for v in orig if not isnan(v)]
+    bad = [(o, k) for o, k in zip(orig, cast) if not (o == k or (isnan(o) and isnan(k)))] if len(orig) == len(cast) else [("length", len(orig), len(cast))]
+    if bad:
+        dt = getattr(x, "dtype", "list")
+        fails.append({"what": f"{backend} {dt}: inferred {t.__name__}, but the cast values differ from the original values: {bad[:3]}", "class": f"seq-values:{backend}:{dt}:{t.__name__}",
+                      "typeset": tsname, "backend": backend})
+    return fails
+
+
+# ------------------------------------------------------------------ C09 on pure Python lists (elements pandas would re-box: numpy scalars, big ints, subclasses)
+C09_LIST_CORNERS = [
+    "[np.float64(1.0), np.float64(2.0), np.float64(inf)]", "[np.float64(3.0), np.float64(-inf)]", "[np.float64(nan), np.float64(1.0)]", "[np.float32(1.0), np.float32(inf)]",
+    "[1.0, 2.0, inf]", "[1.0, -inf]", "[nan, nan]", "[1e308, 1e308]", "[np.float64(1e300)]", "[np.int64(3), np.int64(-4)]", "[np.uint8(3)]", "[np.bool_(True), np.bool_(False)]",
+    "[np.str_('a'), np.str_('1.5')]", "[np.complex128(1+0j), np.complex128(inf)]", "[complex(inf, 0), 1j]", "[complex(nan, nan)]", "[10 ** 400, 1]", "[-(10 ** 400)]",
+    "['1e400', '1']", "['inf', '-inf']", "['nan']", "['1' * 5000]", "['(1+2j)', 'j']", "[np.datetime64('2020-01-01')]", "[np.timedelta64(1, 'D')]",
+    "[datetime.datetime(1, 1, 1), datetime.datetime(9999, 12, 31)]", "['0001-01-01 00:00:00', '9999-12-31 23:59:59']", "['2020-01-01 00:00:00', '2020-13-01 00:00:00']",
+    "[True, 1.0, np.float64(inf)]", "[0.0, np.float64(inf), 'a']", "[(), ()]", "[[1.0, inf]]", "[float('inf')] * 3 + [np.float64(2.0)]",
+]
